@@ -5,6 +5,7 @@ import Req.Client.Body
 import Req.Client.Progress
 import Req.Client.EarlyResponse
 import Req.Client.UploadReader
+import Req.Client.ProgressClock
 /-! Driver lanes of C17. -/
 namespace Req.Driver.L.C17
 open Req.Proto
@@ -308,7 +309,63 @@ def laneReader : List String → String
     | _, _ => "bad-op"
   | _ => "bad-op"
 
+/-- `c17progwt <total> <interval> <last0> <ns> <nows>` → `<callback arguments> <times at which the
+interval test fired>` (upload writer under an explicit clock). -/
+def laneProgWT : List String → String
+  | [tot, iv, l0, ns, nows] =>
+    match tot.toInt?, iv.toInt?, l0.toInt?, decodeIntList ns, decodeIntList nows with
+    | some tot, some iv, some l0, some ns, some nows =>
+      if ns.length != nows.length then "bad-op" else
+      let calls := (ns.zip nows).map fun (n, t) => (⟨n, t⟩ : Req.Progress.WCall)
+      showInts (Req.Progress.runWT ⟨0, tot⟩ ⟨l0, iv⟩ calls) ++ " " ++
+        showInts (Req.Progress.intervalTimesW ⟨0, tot⟩ ⟨l0, iv⟩ calls)
+    | _, _, _, _, _ => "bad-op"
+  | _ => "bad-op"
+
+/-- `c17progrt <interval> <last0> <ns> <eof bits> <nows>` → callback arguments of the download
+reader under an explicit clock, then `Close`. -/
+def laneProgRT : List String → String
+  | [iv, l0, ns, eofs, nows] =>
+    match iv.toInt?, l0.toInt?, decodeIntList ns, decodeNatList eofs, decodeIntList nows with
+    | some iv, some l0, some ns, some eofs, some nows =>
+      if ns.length != nows.length || ns.length != eofs.length then "bad-op" else
+      let calls := ((ns.zip eofs).zip nows).map fun ((n, e), t) => (⟨n, e == 1, t⟩ : Req.Progress.RCall)
+      showInts (Req.Progress.runRC ⟨0, 0⟩ (Req.Progress.bitsR ⟨0, 0⟩ ⟨l0, iv⟩ calls))
+    | _, _, _, _, _ => "bad-op"
+  | _ => "bad-op"
+
+/-- `c17progrc <ns> <eof bits> <clock bits>` → callback arguments of the download reader, reads
+then `Close`. -/
+def laneProgRC : List String → String
+  | [ns, eofs, cl] =>
+    match decodeIntList ns, decodeNatList eofs, decodeNatList cl with
+    | some ns, some eofs, some cl =>
+      if ns.length != cl.length || ns.length != eofs.length then "bad-op" else
+      showInts (Req.Progress.runRC ⟨0, 0⟩
+        (((ns.zip eofs).zip cl).map fun ((n, e), c) => ⟨n, e == 1, c == 1⟩))
+    | _, _, _ => "bad-op"
+  | _ => "bad-op"
+
+/-- `c17progfiles <attempts> <totals> <sizes>` → `id:count,…`: `attempts` sends of files 0..k-1
+(`totals` = FileSize, 0 unknown; `sizes` = bytes really written) with a clock that never elapses
+and one write per file (the split does not matter then). -/
+def laneProgFiles : List String → String
+  | [att, tots, szs] =>
+    match att.toNat?, decodeIntList tots, decodeIntList szs with
+    | some att, some tots, some szs =>
+      if tots.length != szs.length then "bad-op" else
+      let files : List Req.Progress.FileRun :=
+        ((List.range tots.length).zip (tots.zip szs)).map fun (i, (t, z)) => ⟨i, t, [⟨z, false⟩]⟩
+      let out := Req.Progress.runAttempts (List.replicate att files)
+      if out.isEmpty then "-" else ",".intercalate (out.map fun (i, x) => toString i ++ ":" ++ toString x)
+    | _, _, _ => "bad-op"
+  | _ => "bad-op"
+
 def lanes : List (String × (List String → String)) := [
+  ("c17progwt", laneProgWT),
+  ("c17progrt", laneProgRT),
+  ("c17progrc", laneProgRC),
+  ("c17progfiles", laneProgFiles),
   ("c17reader", laneReader),
   ("c17early", laneEarly),
   ("c17ordered", laneOrdered),
